@@ -32,6 +32,8 @@ FLOORS["quick"].update({'receivers_returning_pending_events': 20, 'same_object_r
 FLOORS["thorough"].update({'receivers_returning_pending_events': 100, 'same_object_reentries': 750})
 FLOORS["quick"].update({'huge_int_clock_cases': 12, 'negative_clock_cases': 60})
 FLOORS["thorough"].update({'huge_int_clock_cases': 60, 'negative_clock_cases': 300})
+FLOORS["quick"].update({'binomial_tail_checks': 20, 'many_in_flight_cases': 1})
+FLOORS["thorough"].update({'binomial_tail_checks': 100, 'many_in_flight_cases': 2})
 
 
 def plan(tier):
